@@ -3,7 +3,7 @@
 (* small hand-written sample so that Dig.tla can be parsed and model-checked on its own;  *)
 (* every run of the harness writes its own DigCats.tla into its scratch directory.        *)
 Cats == <<
-  [parent |-> [r |-> "", a |-> "r"],
+  [parent |-> [r |-> "", a |-> "r"], order |-> <<>>,
    opts |-> <<[defer |-> FALSE, recover |-> TRUE, dry |-> FALSE]>>,
    fns |-> [
      c1 |-> [kind |-> "ctor", scope |-> "r", exp |-> FALSE, cb |-> FALSE, dur |-> 1, inv |-> "", nest |-> <<>>,
